@@ -24,7 +24,7 @@ def rand_word(rng, nbytes):
 def mutate(rng, w):
     cs = list(w)
     for _ in range(rng.choice([0, 1, 1, 2, 2, 3, 4, 6])):
-        op = rng.choice("idst")
+        op = rng.choice("idstxy")
         pos = rng.randrange(len(cs) + 1)
         if op == "i":
             cs.insert(pos, rng.choice("abcxyzé"))
@@ -35,6 +35,15 @@ def mutate(rng, w):
         elif op == "t" and len(cs) >= 2:
             p = min(pos, len(cs) - 2)
             cs[p], cs[p + 1] = cs[p + 1], cs[p]
+        elif op == "x" and len(cs) >= 2:
+            # two letters swapped with a stray letter typed between them: distance 2 for the unrestricted
+            # Damerau-Levenshtein distance, 3 for the optimal-string-alignment variant
+            p = min(pos, len(cs) - 2)
+            cs[p:p + 2] = [cs[p + 1], rng.choice("abcxyzé"), cs[p]]
+        elif op == "y" and len(cs) >= 3:
+            # the same the other way round: the letter between two swapped letters dropped
+            p = min(pos, len(cs) - 3)
+            cs[p:p + 3] = [cs[p + 2], cs[p]]
     return "".join(cs)
 
 
